@@ -571,7 +571,7 @@ func c01() []*Ob {
 								return true
 							}
 							// or the caller's own skip parameter (checked at its callers in turn)
-							if p, isP := v.(*ssa.Parameter); isP && FuncName(caller) == "frac.NewActiveWriter" && p.Name() == "skipFsync" {
+							if p, isP := v.(*ssa.Parameter); isP && FuncName(caller) == "frac.NewActiveWriter" && ParamName(p) == "skipFsync" {
 								return true
 							}
 							return false
